@@ -567,5 +567,76 @@ def task_crossing_detection(ctx):
     ctx.assume_note("the Hungarian assignment is an arbitrary permutation (all 6 of 3 states); overlaps are arbitrary numbers in [0,1]")
 
 
-TASKS_QUICK = ["flow", "attempt_hop", "rescale", "relabel", "scratch_buffers", "crossing_detection"]
+def _crossing_rows_grid():
+    """real _detect_crossings on real torch: every trajectory of a two-trajectory batch against the same trajectory alone, over a
+    grid of (holdoff, previous state, active state, overlap pattern) per trajectory; returns the list of differences."""
+    import itertools
+    import torch
+    import seqm.NonadiabaticDynamics as N
+
+    torch.set_default_dtype(torch.float64)
+    n = 3
+
+    def overlap_amp(kind):
+        # previous amplitudes = identity rows; current amplitudes: none / states 1<->2 exchanged / states 0<->1 exchanged
+        ref = torch.eye(n)
+        tgt = torch.eye(n)
+        if kind == "swap12":
+            tgt = tgt[[0, 2, 1]]
+        elif kind == "swap01":
+            tgt = tgt[[1, 0, 2]]
+        return ref, tgt
+
+    def make(trajs):
+        sh = object.__new__(N.SurfaceHoppingDynamics)
+        torch.nn.Module.__init__(sh)
+        m = len(trajs)
+        refs, tgts = zip(*[overlap_amp(t["ov"]) for t in trajs])
+        sh.__dict__.update(_nstates=n, _eye_cache={}, _arange_cache={}, _detect_crossings_flag=True, _trivial_swap_buffers={}, _trivial_zero_buffers={}, _perm_cost_buffers={},
+                           _active_states=torch.tensor([t["active"] for t in trajs]), post_hop_holdoff=torch.tensor([t["hold"] for t in trajs]), prev_state=torch.tensor([t["prev"] for t in trajs]))
+        co = {"cis_amp": torch.stack(refs), "nac_dot": torch.ones(m, n, n)}
+        cn = {"cis_amp": torch.stack(tgts), "nac_dot": torch.ones(m, n, n)}
+        sw = sh._detect_crossings(co, cn)
+        rows = []
+        for k in range(m):
+            rows.append({"swap": (sw[k].tolist() if sw is not None else [-1] * n), "nac_new": cn["nac_dot"][k].tolist(), "nac_old": co["nac_dot"][k].tolist(), "holdoff": int(sh.post_hop_holdoff[k])})
+        return rows
+
+    configs = [dict(hold=h, prev=pv, active=a, ov=o) for h, pv in ((0, -1), (2, 2), (2, 0)) for a in (1,) for o in ("none", "swap12", "swap01")]
+    diffs, count = [], 0
+    for t0, t1 in itertools.product(configs, configs):
+        batch = make([t0, t1])
+        alone = [make([t0])[0], make([t1])[0]]
+        count += 1
+        for k in range(2):
+            if batch[k] != alone[k]:
+                diffs.append({"trajectory": k, "batch": [t0, t1], "in_batch": batch[k], "alone": alone[k]})
+    return count, diffs
+
+
+def replay_crossing_rows(model):
+    count, diffs = _crossing_rows_grid()
+    return {"reproduced": bool(diffs), "two-trajectory batches compared": count, "first differences": diffs[:2]}
+
+
+def task_crossing_rows(ctx):
+    """BOUNDED (run-time contract on the real _detect_crossings, real torch and the real assignment step): in a batch of two
+    trajectories every trajectory gets the swap table row, the zeroed couplings and the holdoff it gets alone -- over a grid of 81
+    batches (holdoff / previous state / overlap pattern per trajectory: no crossing, states 1<->2 exchanged, states 0<->1
+    exchanged; in holdoff with and without a matching previous state).  The index lists of the 'probe' and 'detect' groups differ
+    exactly when one trajectory is in holdoff and the other is not."""
+    ctx.under_contract(NAD + ":NonadiabaticDynamicsBase._detect_crossings", note="run-time contract on a grid of two-trajectory batches (bounded)")
+    count, diffs = _crossing_rows_grid()
+    if count < 50:
+        ctx.error("crossing_rows.grid", "grid too small: %d" % count)
+    name = "crossing_rows.every-trajectory-of-a-batch-gets-what-it-gets-alone"
+    if diffs:
+        ctx.fail(name, "%d of %d batches differ; first: %r" % (len({str(d["batch"]) for d in diffs}), count, diffs[0]), replay={"reproduced": True, "first differences": diffs[:2], "two-trajectory batches compared": count},
+                 witness_class="crossing-bookkeeping-applied-to-another-trajectory", backend="bounded:runtime-contract")
+    else:
+        ctx.ok(name, "bounded:runtime-contract", detail="%d two-trajectory batches, both trajectories compared with their single-trajectory runs" % count)
+    ctx.bounded.append({"what": "trivial-crossing bookkeeping per trajectory", "bound": "81 two-trajectory batches of 3 states with exact (0/1) overlaps", "why_not_proved": "the assignment step (scipy) and data-dependent index lists are outside the symbolic shim; the symbolic task crossing_detection covers one trajectory with arbitrary overlaps"})
+
+
+TASKS_QUICK = ["flow", "attempt_hop", "rescale", "relabel", "scratch_buffers", "crossing_detection", "crossing_rows"]
 TASKS_THOROUGH = TASKS_QUICK
